@@ -97,6 +97,9 @@ package actor
 //@     c != nil && c.options != nil && c.options.Logger != nil && c.system != nil && c.system.eventStream != nil &&
 //@     c.behaviorStack != nil && c.actor != nil && c.mailbox != nil && c.ref != nil && c.scheduler != nil
 
+// the context's scheduler as newScheduler builds it
+//@ pure schedok(c *Context) bool = c.scheduler != nil && c.scheduler.ctx == c && c.scheduler.scheduler != nil && c.scheduler.jobKeys != nil &&
+//@     forall r string :: r in c.scheduler.jobKeys ==> c.scheduler.jobKeys[r] != nil
 //@ func (*killedHandler).handleRestart
 //@   requires ctxwf(h.ctx)
 //@   requires h.restarting ==> h.ctx.restarting != nil
@@ -280,17 +283,29 @@ package actor
 //@   ensures  len(h.ctx.children) <= old(len(h.ctx.children))
 //@ func (*killedHandler).executeBehavior
 //@   trusted
+// the jobs of an actor die with it (C20): every job recorded in its scheduler is deleted, nothing stays recorded
 //@ func (*killedHandler).cleanupScheduler
-//@   trusted
+//@   requires h.ctx != nil && ctxwf(h.ctx) && schedok(h.ctx)
+//@   modifies h.ctx.scheduler.jobKeys[*], gmap(deleted)
+//@   ensures  h.shouldContinue ==> len(h.ctx.scheduler.jobKeys) == 0 &&
+//@            forall r string :: old(r in h.ctx.scheduler.jobKeys) ==> gcount(deleted, old(h.ctx.scheduler.jobKeys[r])) > old(gcount(deleted, h.ctx.scheduler.jobKeys[r]))
+//@   ensures  !h.shouldContinue ==> forall r string :: (r in h.ctx.scheduler.jobKeys <==> old(r in h.ctx.scheduler.jobKeys)) && h.ctx.scheduler.jobKeys[r] == old(h.ctx.scheduler.jobKeys[r])
+//@   ensures  schedok(h.ctx)
 //@ func newKilledHandler
 //@   ensures result != nil && fresh(result) && result.ctx == ctx && result.message == message && !result.shouldContinue && !result.restarting && result.selfKilledMessage == nil
 
 // one call of onKilled: the registry entry is released and the termination reported AT MOST once, and only when
 // the child table is empty and the state was `killing` (or the actor is a zombie being released)
+// (a zombie - an actor whose restart hook failed - had its jobs cleared by the restart that made it one, and runs
+// no user code afterwards: zombieNoJobs is its invariant, kept by this function)
+//@ pure zombieNoJobs(c *Context) bool = c.zombie ==> len(c.scheduler.jobKeys) == 0
 //@ func (*Context).onKilled
-//@   requires ctxwf(c) && message != nil && c.envelop != nil
+//@   requires ctxwf(c) && message != nil && c.envelop != nil && schedok(c) && zombieNoJobs(c)
 //@   requires forall p string :: p in c.watchers ==> c.watchers[p] != nil
-//@   modifies c.children[*], c.state, c.envelop, c.actor, c.behaviorStack.behaviors, c.zombie, c.restarting, gmap(told), gmap(toldn), gmap(tells), gmap(unregistered), gmap(unsuball), gmap(published), gmap(resumes)
+//@   modifies c.children[*], c.state, c.envelop, c.actor, c.behaviorStack.behaviors, c.zombie, c.restarting, c.scheduler.jobKeys[*], gmap(told), gmap(toldn), gmap(tells), gmap(unregistered), gmap(unsuball), gmap(published), gmap(resumes), gmap(deleted)
+// C20: an actor that is released (or restarted) leaves no scheduled job behind
+//@   ensures  gcount(unregistered, c) > old(gcount(unregistered, c)) ==> len(c.scheduler.jobKeys) == 0
+//@   ensures  schedok(c) && zombieNoJobs(c)
 //@   ensures  gcount(unregistered, c) <= old(gcount(unregistered, c)) + 1
 //@   ensures  forall r vivid.ActorRef, k mathint :: k != kKilledSys() && k != 2 * tagof("*vivid.OnLaunch") + 1 ==> gcount(told, r, k) == old(gcount(told, r, k))
 //@   ensures  forall k mathint :: k != kKilledSys() && k != 2 * tagof("*vivid.OnLaunch") + 1 ==> gcount(toldn, k) == old(gcount(toldn, k))
@@ -315,7 +330,7 @@ package actor
 //@ func (*Context).executeBehaviorWithRecovery
 //@   funcspec behavior maypanic preserves ctxwf(c), killedMsgOK(c), c.state, c.envelop, c.ref, c.zombie, c.restarting, c.children, c.watchers
 //@   requires ctxwf(c) && c.envelop != nil && behavior != nil && killedMsgOK(c)
-//@   modifies anyold, gmap(failures)
+//@   modifies anyold, gmap(failures), ghost(calls_behavior)
 //@   ensures  c.state == old(c.state) && c.envelop == old(c.envelop) && c.ref == old(c.ref) && ctxwf(c)
 //@   ensures  gcount(failures, c) <= old(gcount(failures, c)) + 1
 //@   ensures  forall d *Context :: d != c ==> gcount(failures, d) == old(gcount(failures, d))
@@ -494,9 +509,19 @@ package actor
 //@ func (*Context).onPing
 //@   trusted
 //@   modifies anyold, gmap(told), gmap(toldn), gmap(tells)
-//@ func (*Context).onScheduler
+// a replaced envelope is immutable: its observers are its constructor's arguments (trusted link between the
+// abstract observers of vivid.Envelop and this implementation; (*replacedEnvelop).Message etc. return the fields)
+//@ func newReplacedEnvelop
 //@   trusted
-//@   modifies anyold, gmap(failures), ghost(calls_behavior)
+//@   ensures result != nil && fresh(result) && envMessage(iface(result)) == message && envSystem(iface(result)) == envSystem(envelop) &&
+//@           envSender(iface(result)) == envSender(envelop) && envReceiver(iface(result)) == envReceiver(envelop)
+// C20: a scheduled message is delivered like any other - the behaviour runs exactly once, and what it sees as
+// ctx.Message() is the ORIGINAL message value, not the scheduler's wrapper
+//@ func (*Context).onScheduler
+//@   callspec executeBehaviorWithRecovery requires envMessage(c.envelop) == message.Message
+//@   requires ctxwf(c) && c.envelop != nil && message != nil && behavior != nil && !typeis(message.Message, "*vivid.OnKilled")
+//@   modifies anyold, c.envelop, gmap(failures), ghost(calls_behavior)
+//@   ensures  ghost(calls_behavior) == old(ghost(calls_behavior)) + 1
 //@ pure isCoreMessage(m any) bool =
 //@     typeis(m, "*vivid.OnLaunch") || typeis(m, "*vivid.OnKill") || typeis(m, "*vivid.OnKilled") || typeis(m, "*actor.supervisionContext") ||
 //@     typeis(m, "*messages.NoneArgsCommandMessage") || typeis(m, "*actor.RestartMessage") || typeis(m, "*messages.PingMessage") ||
@@ -505,12 +530,13 @@ package actor
 //@ pure foreignAtRoot(c *Context, e vivid.Envelop) bool = c.parent == nil && typeis(envReceiver(e), "*actor.Ref") && !nilptr(envReceiver(e)) &&
 //@     (refPath(envReceiver(e)) != c.ref.path || refAddress(envReceiver(e)) != c.ref.address)
 //@ func (*Context).HandleEnvelop
-//@   requires ctxwf(c) && watchersOK(c) && envelop != nil && ctxwf(c.system.Context)
+//@   requires ctxwf(c) && watchersOK(c) && envelop != nil && ctxwf(c.system.Context) && schedok(c) && zombieNoJobs(c)
 //@   requires len(c.behaviorStack.behaviors) > 0 && c.behaviorStack.behaviors[len(c.behaviorStack.behaviors) - 1] != nil
 //@   requires !nilptr(envMessage(envelop)) && envSender(envelop) != nil && !nilptr(envSender(envelop))
+//@   requires typeis(envMessage(envelop), "*actor.SchedulerMessage") ==> !typeis(unboxed(envMessage(envelop), "*actor.SchedulerMessage").Message, "*vivid.OnKilled")
 //@   requires typeis(envMessage(envelop), "*vivid.OnKilled") ==> unboxed(envMessage(envelop), "*vivid.OnKilled").Ref != nil &&
 //@            (typeis(unboxed(envMessage(envelop), "*vivid.OnKilled").Ref, "*actor.Ref") ==> !nilptr(unboxed(envMessage(envelop), "*vivid.OnKilled").Ref))
-//@   modifies anyold, c.envelop, gmap(selftold), gmap(told), gmap(toldn), gmap(tells), gmap(unregistered), gmap(unsuball), gmap(published), gmap(resumes), gmap(pauses), gmap(failures), ghost(calls_behavior)
+//@   modifies anyold, c.envelop, gmap(deleted), gmap(selftold), gmap(told), gmap(toldn), gmap(tells), gmap(unregistered), gmap(unsuball), gmap(published), gmap(resumes), gmap(pauses), gmap(failures), ghost(calls_behavior)
 // a dead letter that itself cannot be delivered (the root has stopped) is dropped: no further work
 //@   ensures  old(deadFor(c, envelop)) && typeis(envMessage(envelop), "ves.DeathLetterEvent") ==>
 //@            (forall d *Context, t mathint :: gcount(selftold, d, t) == old(gcount(selftold, d, t))) && ghost(calls_behavior) == old(ghost(calls_behavior))
@@ -540,6 +566,17 @@ package actor
 //@   ghostinc deleted(jobKey)
 //@ pure schedwf(s *Scheduler) bool = s.ctx != nil && ctxwf(s.ctx) && s.scheduler != nil && s.jobKeys != nil &&
 //@     forall r string :: r in s.jobKeys ==> s.jobKeys[r] != nil
+// firing: exactly one hand-over of a *SchedulerMessage (a user message), to the receiver - through the actor's
+// own mailbox when the receiver is the actor itself; nothing else is sent
+//@ func (*Scheduler).tell
+//@   requires schedwf(s) && receiver != nil && (typeis(receiver, "*actor.Ref") ==> !nilptr(receiver)) && options != nil
+//@   modifies gmap(told), gmap(toldn), gmap(tells), gmap(selftold)
+//@   ensures  (gcount(toldn, 2 * tagof("*actor.SchedulerMessage")) == old(gcount(toldn, 2 * tagof("*actor.SchedulerMessage"))) + 1 &&
+//@             gcount(told, receiver, 2 * tagof("*actor.SchedulerMessage")) == old(gcount(told, receiver, 2 * tagof("*actor.SchedulerMessage"))) + 1 &&
+//@             forall d *Context, t mathint :: gcount(selftold, d, t) == old(gcount(selftold, d, t))) ||
+//@            (gcount(selftold, s.ctx, tagof("*actor.SchedulerMessage")) == old(gcount(selftold, s.ctx, tagof("*actor.SchedulerMessage"))) + 1 &&
+//@             gcount(toldn, 2 * tagof("*actor.SchedulerMessage")) == old(gcount(toldn, 2 * tagof("*actor.SchedulerMessage"))))
+//@   ensures  forall k mathint :: k != 2 * tagof("*actor.SchedulerMessage") ==> gcount(toldn, k) == old(gcount(toldn, k))
 
 //@ func uniqueJobKey
 //@   requires ctx != nil
